@@ -4,8 +4,8 @@
 //!   kind "sig":  the signature is built through ExternParameter::try_new / ExternSignature::new, printed
 //!                (Quil::to_quil) and parsed back three ways: ExternSignature::from_str, a PRAGMA EXTERN
 //!                instruction through Program::try_extern_signature_map_from_pragma_map, and the same
-//!                pragma through the program parser.  Each must give the same signature (VIOLATION
-//!                otherwise).  The printed text, tokenized, is compared with the model's PrintSig and the
+//!                pragma through the program parser.  The first two must give the same signature (VIOLATION
+//!                otherwise; the third also involves the pragma printer and is divergence level).  The printed text, tokenized, is compared with the model's PrintSig and the
 //!                model's ParseSig of near-miss token lists with the real parser (divergence level).
 //!   kind "call": a program with the DECLAREs, the PRAGMA EXTERN and the CALL; Call::resolve_arguments
 //!                succeeds iff the model's declarative Resolves says so (VIOLATION otherwise); the
@@ -258,10 +258,17 @@ fn roundtrip_failures(sig: &ExternSignature, r: &SigRun) -> Vec<(String, Value)>
     if r.via_pragma.as_ref() != Some(sig) {
         f.push(("signature round trip (try_extern_signature_map_from_pragma_map)".to_string(), show(&r.via_pragma)));
     }
-    if r.via_program_text.as_ref() != Some(sig) {
-        f.push(("signature round trip (program text)".to_string(), show(&r.via_program_text)));
-    }
     f
+}
+
+/// The third route (the PRAGMA printed inside a program and parsed by the program parser) also involves the
+/// pragma printer / parser and string escaping, which belong to other properties: reported as divergence.
+fn program_text_divergence(sig: &ExternSignature, r: &SigRun) -> Option<String> {
+    if r.via_program_text.as_ref() != Some(sig) {
+        Some(format!("signature does not survive the program-text route: {:?} -> {:?}", r.text, r.via_program_text.as_ref().map(sig_to_abs)))
+    } else {
+        None
+    }
 }
 
 pub fn run_call(sig: &ExternSignature, decls: &[Value], args: &[Value]) -> Result<Vec<ResolvedCallArgument>, CallResolutionError> {
@@ -319,8 +326,8 @@ fn replay_history(h: &[Value]) -> Outcome {
     // recorded observations.  All of them reproduced => the rejected history is reproduced.
     let mut all_same = true;
     if let Some(p) = h.iter().find(|e| e["ev"] == "print") {
-        let same3 = r.direct == r.via_pragma && r.direct == r.via_program_text;
-        let now = util::opt_json(if same3 { r.direct.as_ref().map(sig_to_abs) } else { None });
+        let same2 = r.direct == r.via_pragma;
+        let now = util::opt_json(if same2 { r.direct.as_ref().map(sig_to_abs) } else { None });
         all_same &= p["reparsed"] == now;
     }
     for e in h.iter().filter(|e| e["ev"] == "call") {
@@ -344,6 +351,9 @@ fn replay_sig(case: &Value) -> Outcome {
     let r = run_sig(&sig);
     for (obs, got) in roundtrip_failures(&sig, &r) {
         o.violate(Violation::new(&obs, sig_abs.clone(), got).note(format!("printed as {:?}", r.text)));
+    }
+    if let Some(d) = program_text_divergence(&sig, &r) {
+        o.diverge(d);
     }
     let toks = Value::Array(tokenize(&r.text));
     if toks != case["tokens"] {
@@ -482,12 +492,15 @@ pub fn drive(ctx: &Ctx) -> Summary {
             .collect();
         util::emit(&mut out, &json!({"ev": "reset", "sig": sig_abs, "decls": decls}));
         let r = run_sig(&sig);
-        let all_same = r.direct == r.via_pragma && r.direct == r.via_program_text;
-        // verdict event: what the text parses back to (None = does not parse / the three routes disagree)
+        let all_same = r.direct == r.via_pragma;
+        // verdict event: what the text parses back to (None = does not parse / the two routes disagree)
         util::emit(&mut out, &json!({"ev": "print",
             "reparsed": util::opt_json(if all_same { r.direct.as_ref().map(sig_to_abs) } else { None })}));
         util::emit(&mut out, &json!({"ev": "lex", "tokens": tokenize(&r.text)}));
         let mut o = Outcome::ok(np >= 1);
+        if let Some(d) = program_text_divergence(&sig, &r) {
+            o.diverge(d);
+        }
         let mut events = 3;
         // the slots, as the spec numbers them
         let mut slots: Vec<Value> = vec![];
